@@ -52,6 +52,12 @@ var modelledPrefixes = []string{
 	"unsafe",
 	"encoding/gob",
 	"encoding/json",
+	"github.com/wealdtech/go-eth2-wallet-distributed",
+	"github.com/wealdtech/go-eth2-wallet-nd",
+	"github.com/wealdtech/go-eth2-wallet-hd",
+	"github.com/wealdtech/go-eth2-wallet-keystore",
+	"github.com/wealdtech/go-eth2-wallet-encryptor-keystorev4",
+	"github.com/wealdtech/go-eth2-wallet-store-scratch",
 	"crypto/tls",
 	"crypto/x509",
 	"os",
